@@ -936,3 +936,275 @@ Proof.
   change (cb_ret (cb0 <| cb_watch := WDone |>)) with (cb_ret cb0) in E. rewrite O2 in E.
   injection E as <- <-. rewrite <- Ev. split; reflexivity.
 Qed.
+
+Definition is_completion (r : apires) : bool :=
+  match r with ACbRes _ | ACbErr _ _ | ACbCtx _ => true | _ => false end.
+
+Definition msgs_feed (f : feed) (ms : list jmsg) : Prop := exists b, f = FMsg (InMsgs b ms) \/ f = FMsgEOF (InMsgs b ms).
+
+Lemma read_cs_obs f s s' os n r :
+  inv_push s -> read_cs f s = (s', os) -> In (ORet n r) os ->
+  exists ms, msgs_feed f ms /\ running s = true /\ reply_ret s ms (ORet n r).
+Proof.
+  intros H E I. unfold read_cs in E.
+  destruct f as [i|i|sc].
+  1,2: destruct (running s) eqn:Run; cbn [negb] in E; [|injection E as <- <-; destruct I];
+       destruct i as [|b ms]; [cbn in E; injection E as <- <-; destruct I as [I|[]]; discriminate I|];
+       destruct ms as [|m0 ms0]; [cbn in E; injection E as <- <-; destruct I as [I|[]]; discriminate I|];
+       destruct (filter_batch (m0 :: ms0) s [] []) as [[s1 keep] os1] eqn:FB;
+       destruct (filter_batch_matches _ _ _ _ _ _ _ H FB) as (ex & -> & F); cbn [app] in *;
+       assert (I' : In (ORet n r) ex) by
+         (destruct keep; [injection E as <- <-; auto|];
+          match type of E with (if ?b then _ else _) = _ => destruct b end; injection E as <- <-; auto;
+          apply in_app_iff in I as [I|[I|[]]]; [auto|discriminate I]);
+       exists (m0 :: ms0); split; [exists b; auto|split; auto];
+       rewrite Forall_forall in F; auto.
+  destruct (stop_locked sc s) as [s2 os2] eqn:SL. injection E as <- <-.
+  apply stop_locked_spec in SL as [(_ & _ & ->)|(_ & -> & _)]; [destruct I|destruct I as [I|[]]; discriminate I].
+Qed.
+
+Lemma raw_completion_sources s l s' os n r :
+  inv_push s -> step_raw s l = Some (s', os) -> In (ORet n r) os -> is_completion r = true ->
+  (exists f ms, l = LRelRead /\ rd s = RHold f /\ msgs_feed f ms /\ running s = true /\ reply_ret s ms (ORet n r)) \/
+  (exists i c, l = LRelCbWatch i /\ nth_error (cbs s) i = Some c /\ In (cb_id c, i) (calls s) /\
+               n = cb_op c /\ r = ACbCtx (ctx_why c)).
+Proof.
+  intros IH H I K.
+  destruct (neutral l) eqn:Neu.
+  { apply step_raw_neutral in H as [_ F]; auto. rewrite Forall_forall in F. exfalso. apply (F _ I). exact Logic.I. }
+  destruct l; try discriminate Neu; cbn [step_raw] in H.
+  - destruct (negb (running s) && (wg s =? 0)); [|discriminate]. injection H as <- <-. destruct I.
+  - injection H as <- <-. destruct I.
+  - injection H as <- <-. destruct I.
+  - injection H as <- <-. destruct I.
+  - destruct (c_push s); injection H as <- <-; [destruct I|].
+    destruct I as [I|[]]. injection I as <- <-. discriminate K.
+  - destruct (find_idx _ 0 (cbs s)); injection H as <- <-; destruct I.
+  - destruct (rd s) eqn:Rd; try discriminate. injection H as H.
+    destruct (read_cs_obs _ _ _ _ _ _ IH H I) as (ms & M & Run & RR).
+    left. exists f, ms. auto.
+  - destruct (find_op n0 (ops s)) as [[| |]|]; try discriminate.
+    destruct (stop_locked SCStop _) as [s2 os2] eqn:SL. injection H as <- <-.
+    apply in_app_iff in I as [I|[I|[]]]; [|injection I as <- <-; discriminate K].
+    apply stop_locked_spec in SL as [(_ & _ & ->)|(_ & -> & _)]; [destruct I|destruct I as [I|[]]; discriminate I].
+  - destruct (find_op n0 (ops s)) as [[| |]|]; try discriminate. injection H as <- <-.
+    destruct I as [I|[]]. injection I as <- <-. discriminate K.
+  - destruct (find_op n0 (ops s)) as [[| |n' w m p]|]; try discriminate. cbn in H.
+    destruct (running s); cbn in H.
+    2:{ injection H as <- <-. destruct I as [I|[]]. injection I as <- <-. discriminate K. }
+    destruct w.
+    + destruct (send_fail s); injection H as <- <-.
+      * destruct I as [I|[I|[]]]; [discriminate I|]. injection I as <- <-. discriminate K.
+      * destruct I as [I|[]]; discriminate I.
+    + injection H as <- <-. destruct I as [I|[I|[]]]; [discriminate I|]. injection I as <- <-.
+      destruct (send_fail s); discriminate K.
+  - destruct (watch_own _ _ _ _ IH H) as (cb0 & N & W & [(_ & -> & _)|(Ic & -> & _)]); [destruct I|].
+    destruct I as [I|[]]. injection I as <- <-. right. exists c, cb0. auto.
+Qed.
+
+Lemma settle_obs_not_ret extra n r : Forall settle_obs extra -> ~ In (ORet n r) extra.
+Proof. intros F I. rewrite Forall_forall in F. apply (F _ I). Qed.
+
+Lemma step_obs_raw s l s' os :
+  step s l = Some (s', os) ->
+  crash s = None /\ exists s1 os1 extra, step_raw s l = Some (s1, os1) /\ os = os1 ++ extra /\ Forall settle_obs extra /\
+    pv s' = pv s1.
+Proof.
+  intros H. apply step_decompose in H as (C & s1 & os1 & Raw & D). split; auto.
+  exists s1, os1. destruct D as [(_ & -> & ->)|(_ & S)].
+  - exists []. rewrite app_nil_r. auto.
+  - destruct (settle_obs_app _ _ _ _ _ S) as (ex & -> & Fx). exists ex. repeat split; auto.
+    eapply settle_pv; eauto.
+Qed.
+
+(* C09.4, for every window of every run *)
+Lemma reply_matches c s l s' os n r :
+  reach c s -> step s l = Some (s', os) -> In (ORet n r) os -> is_completion r = true ->
+  exists i cb, nth_error (cbs s) i = Some cb /\ In (cb_id cb, i) (calls s) /\ cb_op cb = n /\
+    ((exists f ms m, l = LRelRead /\ rd s = RHold f /\ msgs_feed f ms /\ In m ms /\ is_req_or_notif m = false /\
+                     fix_id (j_id m) = cb_id cb /\ r = member_res m) \/
+     (l = LRelCbWatch i /\ r = ACbCtx (ctx_why cb))).
+Proof.
+  intros R H I K. pose proof (inv_push_reach _ _ R) as IP.
+  apply step_obs_raw in H as (_ & s1 & os1 & ex & Raw & -> & Fx & _).
+  apply in_app_iff in I as [I|I]; [|exfalso; eapply settle_obs_not_ret; eauto].
+  destruct (raw_completion_sources _ _ _ _ _ _ IP Raw I K) as
+    [(f & ms & -> & Rd & M & Run & (m & i & cb0 & Im & Q & A & N & Eid & Eo))|(i & cb0 & -> & N & Ic & -> & ->)].
+  - injection Eo as -> ->. exists i, cb0. repeat split; auto.
+    + rewrite Eid. apply assoc_in; auto.
+    + left. exists f, ms, m. repeat split; auto.
+  - exists i, cb0. repeat split; auto.
+Qed.
+
+(** * C09.6 replies pass the barrier: the reader is never blocked by dispatch *)
+Lemma reader_enabled_raw s f : rd s = RHold f -> step_raw s LRelRead = Some (read_cs f s).
+Proof. intros H. cbn. rewrite H. reflexivity. Qed.
+
+Lemma reader_enabled s f : crash s = None -> rd s = RHold f -> exists s' os, step s LRelRead = Some (s', os).
+Proof.
+  intros C H. unfold step. rewrite C, (reader_enabled_raw _ _ H).
+  destruct (read_cs f s) as [s1 os1]. destruct (crash s1); eauto.
+  destruct (settle (settle_fuel s1) s1 os1); eauto.
+Qed.
+
+Lemma res_of_val_completion v : is_completion (res_of_val v) = true.
+Proof.
+  destruct v as [raw|code msg]; cbn; auto. unfold ctx_res.
+  destruct (code =? Cancelled)%Z; auto. destruct (code =? DeadlineExceeded)%Z; auto.
+Qed.
+
+Lemma filter_batch_completes : forall ms s keep acc s' keep' acc' m i c,
+  inv_push s -> filter_batch ms s keep acc = (s', keep', acc') ->
+  In m ms -> is_req_or_notif m = false -> assoc (fix_id (j_id m)) (calls s) = Some i -> nth_error (cbs s) i = Some c ->
+  assoc (fix_id (j_id m)) (calls s') = None /\ exists r, In (ORet (cb_op c) r) acc' /\ is_completion r = true.
+Proof.
+  induction ms as [|m0 r IH]; intros s keep acc s' keep' acc' m i c H E Im Q A N; [destruct Im|].
+  cbn [filter_batch] in E.
+  destruct (is_req_or_notif m0) eqn:Q0.
+  { destruct Im as [->|Im]; [congruence|]. eapply IH; eauto. }
+  destruct (assoc (fix_id (j_id m0)) (calls s)) as [i0|] eqn:A0.
+  2:{ destruct Im as [->|Im]; [congruence|].
+      destruct (c_push s && is_nil (j_method m0) && has_reply_fields m0); eapply IH; eauto. }
+  pose proof (assoc_in _ _ _ A0) as I0.
+  destruct (complete_cb_reg _ _ (member_val m0) _ H I0) as (c0 & N0 & Eid0 & _ & _ & Ec).
+  fold (member_val m0) in E.
+  pose proof (complete_cb_ip i0 (member_val m0) s H) as H1.
+  rewrite Ec in E, H1. cbn [fst] in H1.
+  destruct (beq_spec (fix_id (j_id m0)) (fix_id (j_id m))) as [Eq|Ne].
+  - (* this member completes it *)
+    rewrite Eq in *. assert (i0 = i) by congruence. subst i0. assert (c0 = c) by congruence. subst c0.
+    destruct (filter_batch_matches _ _ _ _ _ _ _ H1 E) as (ex & -> & _).
+    split.
+    + match type of E with filter_batch r ?s1 ?k ?a = _ =>
+        pose proof (filter_batch_assoc_none r s1 k a (fix_id (j_id m))) as An end.
+      rewrite E in An. cbn [fst] in An. apply An. apply assoc_del_same.
+    + exists (res_of_val (member_val m0)). split; [|apply res_of_val_completion].
+      rewrite !in_app_iff. left; right; left; auto.
+  - destruct Im as [->|Im]; [congruence|].
+    assert (Ne' : i0 <> i).
+    { intros ->. assert (c0 = c) by congruence. subst c0.
+      destruct (ip_reg _ H _ _ (assoc_in _ _ _ A)) as (c' & N' & E' & _). congruence. }
+    eapply IH with (c := c) (i := i); [exact H1|exact E|auto|auto| |].
+    + cbn. rewrite assoc_del_other; auto.
+    + cbn. rewrite nth_error_upd_nth_neq; auto.
+Qed.
+
+Lemma reply_completes_raw s f ms m i c s' os :
+  inv_push s -> running s = true -> rd s = RHold f -> msgs_feed f ms ->
+  In m ms -> is_req_or_notif m = false -> assoc (fix_id (j_id m)) (calls s) = Some i -> nth_error (cbs s) i = Some c ->
+  step_raw s LRelRead = Some (s', os) ->
+  assoc (fix_id (j_id m)) (calls s') = None /\ exists r, In (ORet (cb_op c) r) os /\ is_completion r = true.
+Proof.
+  intros H Run Rd (b & M) Im Q A N E. rewrite (reader_enabled_raw _ _ Rd) in E. injection E as E.
+  unfold read_cs in E.
+  assert (X : (if negb (running s) then (s <| rd := RExited |> <| wg ::= pred |>, [])
+      else match InMsgs b ms with
+           | InBad => let '(s', os) := push_error s ParseError s_invalid_value in (s' <| rd := RIdle |>, os)
+           | InMsgs _ [] => let '(s', os) := push_error s InvalidRequest s_empty_batch in (s' <| rd := RIdle |>, os)
+           | InMsgs b ms =>
+               let '(s1, keep, os) := filter_batch ms s [] [] in
+               match keep with
+               | [] => (s1 <| rd := RIdle |>, os)
+               | _ => let s2 := s1 <| inq ::= fun q => q ++ [(b, keep)] |> <| rd := RIdle |> in
+                      if work_closed s2 && (length (inq s2) =? 1)
+                      then (s2 <| crash := Some CrSendOnClosedWork |>, os ++ [OCrash CrSendOnClosedWork])
+                      else (s2, os)
+               end
+           end) = (s', os)) by (destruct M as [->| ->]; exact E).
+  clear E. rewrite Run in X. cbn [negb] in X.
+  destruct ms as [|m0 ms0]; [destruct Im|].
+  destruct (filter_batch (m0 :: ms0) s [] []) as [[s1 keep] os1] eqn:FB.
+  destruct (filter_batch_completes _ _ _ _ _ _ _ _ _ _ H FB Im Q A N) as (An & r & Ir & Kr).
+  destruct keep.
+  - injection X as <- <-. split; auto. exists r; auto.
+  - match type of X with (if ?b then _ else _) = _ => destruct b end; injection X as <- <-; (split; auto); exists r; split; auto.
+    apply in_app_iff; auto.
+Qed.
+
+(* for every value of dp, nbar, inq: none of them is a hypothesis *)
+Lemma reply_passes_barrier c s f ms m i cb0 :
+  reach c s -> crash s = None -> running s = true -> rd s = RHold f -> msgs_feed f ms ->
+  In m ms -> is_req_or_notif m = false -> assoc (fix_id (j_id m)) (calls s) = Some i -> nth_error (cbs s) i = Some cb0 ->
+  exists s' os, step s LRelRead = Some (s', os) /\
+    assoc (fix_id (j_id m)) (calls s') = None /\ exists r, In (ORet (cb_op cb0) r) os /\ is_completion r = true.
+Proof.
+  intros R C Run Rd M Im Q A N.
+  destruct (reader_enabled _ _ C Rd) as (s' & os & St). exists s', os. split; auto.
+  pose proof (inv_push_reach _ _ R) as IP.
+  destruct (step_obs_raw _ _ _ _ St) as (_ & s1 & os1 & ex & Raw & -> & _ & P).
+  destruct (reply_completes_raw _ _ _ _ _ _ _ _ IP Run Rd M Im Q A N Raw) as (An & r & Ir & Kr).
+  apply pv_fields in P. destruct P as (_ & _ & _ & _ & -> & _). split; auto.
+  exists r. split; auto. apply in_app_iff; auto.
+Qed.
+
+(* single reply: the exact value *)
+Lemma reply_single s b m i c :
+  inv_push s -> running s = true -> is_req_or_notif m = false ->
+  assoc (fix_id (j_id m)) (calls s) = Some i -> nth_error (cbs s) i = Some c ->
+  snd (read_cs (FMsg (InMsgs b [m])) s) = [ORet (cb_op c) (member_res m)].
+Proof.
+  intros H Run Q A N. unfold read_cs. rewrite Run. cbn [negb filter_batch]. rewrite Q, A.
+  destruct (complete_cb_reg _ _ (member_val m) _ H (assoc_in _ _ _ A)) as (c0 & N0 & _ & _ & _ & Ec).
+  fold (member_val m). rewrite Ec. assert (c0 = c) by congruence. subst c0. reflexivity.
+Qed.
+
+(** Examples for C09.2, C09.4, C09.6 *)
+Definition tr_callback : list label := [LStart; LCallPush 5 true [109]%N [49]%N].
+
+Example push_one_request_nonvacuous :
+  exists s s', reach cfg_push s /\ running s = true /\
+    step s (LRelPush 5) = Some (s', [OSendReq true (dec_of_nat 1) [109]%N [49]%N]) /\
+    call_id s = 1 /\ call_id s' = 2 /\ calls s' = [(dec_of_nat 1, 0)].
+Proof.
+  destruct (run_state cfg_push tr_callback) as [s|] eqn:E; [|discriminate E].
+  exists s. eexists. split; [eapply run_state_reach; eauto|].
+  vm_compute in E. injection E as <-. vm_compute. repeat split.
+Qed.
+
+Example push_notify_nonvacuous :
+  exists s s', reach cfg_push s /\ running s = true /\
+    step s (LRelPush 5) = Some (s', [OSendReq true [] [109]%N [49]%N; ORet 5 AOk]) /\ call_id s' = call_id s.
+Proof.
+  destruct (run_state cfg_push [LStart; LCallPush 5 false [109]%N [49]%N]) as [s|] eqn:E; [|discriminate E].
+  exists s. eexists. split; [eapply run_state_reach; eauto|].
+  vm_compute in E. injection E as <-. vm_compute. repeat split.
+Qed.
+
+Example reply_matches_nonvacuous :
+  exists s s', reach cfg_push s /\
+    step s LRelRead = Some (s', [ORet 5 (ACbRes [50]%N)]) /\ is_completion (ACbRes [50]%N) = true /\ calls s' = [].
+Proof.
+  destruct (run_state cfg_push (tr_callback ++ [LRelPush 5; LFeed (FMsg (InMsgs false [reply_msg [49]%N [50]%N]))]))
+    as [s|] eqn:E; [|discriminate E].
+  exists s. eexists. split; [eapply run_state_reach; eauto|].
+  vm_compute in E. injection E as <-. vm_compute. repeat split.
+Qed.
+
+Example watcher_matches_nonvacuous :
+  exists s s', reach cfg_push s /\
+    step s (LRelCbWatch 0) = Some (s', [ORet 5 (ACbCtx WDeadline)]) /\ calls s' = [].
+Proof.
+  destruct (run_state cfg_push (tr_callback ++ [LRelPush 5; LCbCtxEnd 5 WDeadline])) as [s|] eqn:E; [|discriminate E].
+  exists s. eexists. split; [eapply run_state_reach; eauto|].
+  vm_compute in E. injection E as <-. vm_compute. repeat split.
+Qed.
+
+(* a notification handler is running (nbar = 1), the dispatcher waits at the barrier with the
+   next request, callback "1" issued by the handler is outstanding; its reply is read and
+   completes the callback in that very window *)
+Definition tr_barrier : list label :=
+  [LStart; LFeed (FMsg (InMsgs false [note_msg [109]%N [49]%N])); LRelRead; LRelNext; LRelBarrier; LRelNext;
+   LRelAcquire 0; LCallPush 5 true [109]%N [49]%N; LRelPush 5;
+   LFeed (FMsg (InMsgs false [call_msg [55]%N [109]%N [50]%N])); LRelRead; LRelBarrier;
+   LFeed (FMsg (InMsgs false [reply_msg [49]%N [50]%N]))].
+
+Example reply_passes_barrier_nonvacuous :
+  exists s s', reach cfg_push s /\ crash s = None /\ running s = true /\
+    dp s = DBarrierWait 1 /\ nbar s = 1 /\ calls s = [([49]%N, 0)] /\
+    rd s = RHold (FMsg (InMsgs false [reply_msg [49]%N [50]%N])) /\
+    step s LRelRead = Some (s', [ORet 5 (ACbRes [50]%N)]) /\ calls s' = [] /\ dp s' = DBarrierWait 1 /\ nbar s' = 1.
+Proof.
+  destruct (run_state cfg_push tr_barrier) as [s|] eqn:E; [|discriminate E].
+  exists s. eexists. split; [eapply run_state_reach; eauto|].
+  vm_compute in E. injection E as <-. vm_compute. repeat split.
+Qed.
